@@ -31,12 +31,14 @@ def sweep_scenario(run_seed, tier):
         ops.append(op)
         if i in pick_e:
             ops.append({"op": "sweep_eval", "target": op["target"], "root": op["root"], "part": op["part"],
-                        "frame": op["frame"], "stride": 1, "alternate": tier != "thorough", "fault": None})
+                        "frame": op["frame"], "stride": 1, "alternate": tier != "thorough",
+                        "mode": r.choice(["line", "call"]), "fault": None})
         if i in pick_b:
             ops.append({"op": "sweep_build", "client": op["client"], "formula": op["formula"],
                         "frame": op["frame"], "na_action": op["na_action"], "fm": op["fm"],
                         "stride": r.choice([5, 7, 11, 13]), "offset": r.randrange(13),
-                        "max_points": 400 if tier == "thorough" else 120, "fault": None})
+                        "max_points": 400 if tier == "thorough" else 120,
+                        "mode": r.choice(["line", "call"]), "fault": None})
     for j, op in enumerate(ops):
         op["n"] = j
     sc["ops"] = ops
